@@ -28,6 +28,9 @@ def run(res):
     cases = corpus_cases() + c01_cases(rng, 60000 if thorough else 2500, max_n=300)
     # a few long chunks (oracle + writer/reader correspondence)
     cases += c01_cases(rng, 40 if thorough else 6, max_n=20000, shapes=["sparse", "uniform", "lattice", "poly", "clusters"])
+    # run-length prefixes that span several values (low levels, >= 1001 numbers, a dominant
+    # narrow cluster): every repetition of a run carries its own offset
+    cases += rl_range_cases(rng, 80 if thorough else 12)
     rel_cases = cases[::7]
     out = pl.run_pipeline(res, cases)
     rt_bad, w_bad, r_bad, comp_bad = [], [], [], []
